@@ -646,6 +646,9 @@ class Scan(Generic[Carry, Y], GenerativeFunction[tuple[Carry, Y]]):
         args: tuple[Any, ...],
     ) -> tuple[Score, Any]:
         (carry, scanned_in) = args
+        if self._static_scan_length(scanned_in, self.length) == 0:
+            # nothing to assess: score 0, the carry unchanged and the empty stack of outputs.
+            return jnp.zeros(()), self.__abstract_call__(*args)
 
         def _assess(carry, scanned_in):
             idx, carried_value = carry
